@@ -288,6 +288,58 @@ func SteeredPairs(m *big.Int, seed int64) []Pair {
 			}
 		}
 	}
+	// Montgomery product / square whose value BEFORE the final conditional subtraction has a structured limb pattern
+	// relative to the modulus (each limb one of 0, 2^64-1, m_i-1, m_i, m_i+1): the keep-or-subtract decision read from
+	// the wrong limb's borrow, or a comparison that skips a limb, is wrong on some pattern. Products: solve for sb given
+	// sa; squares: x = sqrt(T*R) (both roots) - the pre-subtraction value is then T or T+m.
+	mask := new(big.Int).Sub(new(big.Int).Lsh(one, 64), one)
+	two := new(big.Int).Lsh(m, 1)
+	for pat := 0; pat < 625; pat++ {
+		t := new(big.Int)
+		pp := pat
+		for l := 3; l >= 0; l-- {
+			ml := new(big.Int).And(new(big.Int).Rsh(m, uint(64*l)), mask)
+			var c *big.Int
+			switch pp % 5 {
+			case 0:
+				c = new(big.Int)
+			case 1:
+				c = new(big.Int).Set(mask)
+			case 2:
+				c = new(big.Int).And(new(big.Int).Sub(ml, one), mask)
+			case 3:
+				c = ml
+			default:
+				c = new(big.Int).And(new(big.Int).Add(ml, one), mask)
+			}
+			pp /= 5
+			t.Lsh(t, 64).Or(t, c)
+		}
+		if t.Cmp(two) >= 0 {
+			continue
+		}
+		tR := new(big.Int).Mul(t, r256)
+		cls := "mul: value before the final subtraction has a modulus-relative limb pattern"
+		for _, sa := range mulAs[:2] {
+			minv := new(big.Int).ModInverse(new(big.Int).Mod(m, sa), sa)
+			if minv == nil {
+				continue
+			}
+			q := new(big.Int).Mod(new(big.Int).Mul(tR, minv), sa)
+			num := new(big.Int).Sub(tR, new(big.Int).Mul(q, m))
+			sb, rem := new(big.Int).QuoRem(num, sa, new(big.Int))
+			if rem.Sign() != 0 || sb.Sign() < 0 || sb.Cmp(m) >= 0 || q.Cmp(r256) >= 0 {
+				continue
+			}
+			out = append(out, Pair{cls, unst(sa), unst(sb)})
+		}
+		if x := new(big.Int).ModSqrt(new(big.Int).Mod(tR, m), m); x != nil {
+			out = append(out, Pair{"square: value before the final subtraction has a modulus-relative limb pattern", unst(x), unst(x)})
+			nx := new(big.Int).Sub(m, x)
+			nx.Mod(nx, m)
+			out = append(out, Pair{"square: value before the final subtraction has a modulus-relative limb pattern", unst(nx), unst(nx)})
+		}
+	}
 	return out
 }
 
@@ -320,6 +372,49 @@ func Partitions(k int) [][]int {
 	if k > 0 {
 		cur[0] = 0
 		rec(1, 0)
+	}
+	return out
+}
+
+// WordPatternStrings returns the 256-bit values whose four 64-bit words each range over a small word alphabet:
+// 0, 1, 2^63, 2^64-1, the alternating masks f0f0.. / 0f0f.. / 5555.. / aaaa.., and the words of the modulus and
+// their neighbours. A limb-wise comparison, range check or predicate that combines the words with the wrong
+// operator (| for &, a skipped or doubled limb, a truncated word) answers wrongly on some combination.
+func WordPatternStrings(m *big.Int) []*big.Int {
+	mask := new(big.Int).Sub(new(big.Int).Lsh(one, 64), one)
+	base := []uint64{0, 1, 1 << 63, ^uint64(0), 0xf0f0f0f0f0f0f0f0, 0x0f0f0f0f0f0f0f0f, 0x5555555555555555, 0xaaaaaaaaaaaaaaaa}
+	var out []*big.Int
+	n := len(base) + 3
+	idx := make([]int, 4)
+	for {
+		v := new(big.Int)
+		for l := 3; l >= 0; l-- {
+			var w *big.Int
+			ml := new(big.Int).And(new(big.Int).Rsh(m, uint(64*l)), mask)
+			switch k := idx[l]; {
+			case k < len(base):
+				w = new(big.Int).SetUint64(base[k])
+			case k == len(base):
+				w = ml
+			case k == len(base)+1:
+				w = new(big.Int).And(new(big.Int).Sub(ml, one), mask)
+			default:
+				w = new(big.Int).And(new(big.Int).Add(ml, one), mask)
+			}
+			v.Lsh(v, 64).Or(v, w)
+		}
+		out = append(out, v)
+		i := 0
+		for ; i < 4; i++ {
+			idx[i]++
+			if idx[i] < n {
+				break
+			}
+			idx[i] = 0
+		}
+		if i == 4 {
+			break
+		}
 	}
 	return out
 }
